@@ -340,6 +340,9 @@ static void run_single_task(const Plan& p, ExecHooks hooks) {
     for (auto& op : p.tasks[0].ops) ex.run_op(op);
   }
   ex.release_all();
+  op_begin(0, -1, OK_FREE, "(thread exit)");
+  task_thread_exit();
+  op_end();
   if (hooks.purity_monitors) procstate_final();
   caller_locale_remove();
   std::vector<Exec*> v{&ex};
@@ -367,6 +370,9 @@ static void run_threads(const Plan& p) {
       caller_locale_install(p.tasks[t].tloc);
       for (auto& op : p.tasks[t].ops) ex[t]->run_op(op);
       ex[t]->release_all();
+      op_begin(t, -1, OK_FREE, "(thread exit)");
+      task_thread_exit();
+      op_end();
       caller_locale_remove();
     });
   if (p.sched.policy == SP_SERIAL) {
